@@ -105,6 +105,16 @@ def c08b(ctx, tu):
         ctx.ob("C08.b.loop", A["run_actions"], ok, pattern=short_loc(l["loc"]), unit=tu.name, inst=fn.q,
                detail="" if ok else "the side-effect loop must range over the whole `actions` list in list order "
                "with no exit other than a callback's exception")
+        # ... and EVERY accepted call gets there: once the call has been counted, no path returns without
+        # passing the side-effect loop
+        incs = cfg.find_events(fn, lambda e: e["e"] == "call" and qe(e) == A["increment_call"])
+        ok = bool(incs)
+        why = "the call is not counted in run_actions"
+        for ib, ii, ie in incs:
+            if fn.exit in cfg.reach(fn, ib, avoid_blocks={l["entry"], l["head"]}):
+                ok = False
+                why = "an accepted (counted) call can leave run_actions without its side effects having run"
+        ctx.ob("C08.b.all", A["run_actions"], ok, pattern=fn.pat, unit=tu.name, inst=fn.q, detail="" if ok else why)
 
 
 # ------------------------------------------------------------------------------- C08.c
